@@ -129,16 +129,19 @@ def _config(ctx, idx):
     LS = int(rng.integers(1, cap + 1)) if rng.random() < 0.6 else cap + int(rng.integers(1, 8))
     T = int(rng.integers(1, 9))
     gamma = 0.9
+    # minibatch sizes incl. ones larger than the warm-up (learning_starts * num_envs < batch_size): what is
+    # collected does not depend on the minibatch size
+    B = int(rng.choice([1, 1, 3, cap * E]))
     nS = int(env0.T.shape[0])
     if box:
         policy = TabularSACPolicy(env0, loc=rng.uniform(-1.5, 1.5, nS), log_std=rng.uniform(-1.0, 0.0, nS),
                                   scale_out=2.0)
-        algo = SAC(buffer_size=buffer_size, learning_starts=LS, num_envs=E, num_steps=T, batch_size=1,
+        algo = SAC(buffer_size=buffer_size, learning_starts=LS, num_envs=E, num_steps=T, batch_size=B,
                    gamma=gamma, q_width_size=4, q_depth=1)
         which = "SAC"
     else:
         policy = TabularQPolicy(env0, q=rng.uniform(-1, 1, (nS, int(env0.T.shape[1]))), epsilon=0.4)
-        algo = DQN(buffer_size=buffer_size, learning_starts=LS, num_envs=E, num_steps=T, batch_size=1,
+        algo = DQN(buffer_size=buffer_size, learning_starts=LS, num_envs=E, num_steps=T, batch_size=B,
                    gamma=gamma, target_update_interval=2)
         which = "DQN"
     cb = CallbackList(callbacks=[])
@@ -148,8 +151,9 @@ def _config(ctx, idx):
     tab, clip = env0.describe(), clip_desc(env)
     n_noise, inits = int(env0.T.shape[2]), set(np.asarray(env0.inits).tolist())
     slim = {"kind": "offpolicy", "algo": which, "stack": desc, "E": E, "buffer_size": buffer_size,
-            "learning_starts": LS, "num_steps": T}
+            "learning_starts": LS, "num_steps": T, "batch_size": B}
     ctx.count(f"{which}:configs")
+    ctx.count("batch_size>warm-up" if B > LS * E else "batch_size<=warm-up")
     ctx.count("wraps" if LS > cap else "no-wrap")
     for e in range(E):
         _check_env(ctx, {**slim, "phase": "after-reset", "env_index": e}, tab, desc, clip, n_noise, inits,
